@@ -42,7 +42,8 @@ func RealWorker() {
 	}
 }
 
-// RealParams: Requests is a sequence over F (fast), S (slow), H (hangs); request
+// RealParams: Requests is a sequence over F (fast), S (slow, 300 ms), H (hangs), P (no request:
+// wait for everything in flight, then stay idle for 1.6 s, longer than the 1 s --timeout); request
 // i+1 is issued as soon as request i has been picked up by a worker (its worker
 // reported BUSY) — arrivals are ordered by events, not by sleeping.
 type RealParams struct {
@@ -62,7 +63,7 @@ type RealResult struct {
 
 // RealMaster runs one scenario in this (fresh) process.
 func RealMaster(p RealParams) (res RealResult) {
-	log.SetOutput(io.Discard)
+	log.SetOutput(os.Stderr) // the master's log.Fatal must not be silent: the caller captures stderr
 	os.Setenv("VERIF_REAL_WORKER", "1")
 	// a free port
 	l, err := net.Listen("tcp", "127.0.0.1:0")
@@ -188,10 +189,35 @@ func RealMaster(p RealParams) (res RealResult) {
 			outc <- outcome{i, "garbled " + fmt.Sprintf("%q %v", s, err)}
 		}
 	}
+	res.Outcomes = make([]string, len(p.Requests))
+	issued, received := 0, 0
+	drain := func() bool {
+		for received < issued {
+			select {
+			case o := <-outc:
+				res.Outcomes[o.idx] = o.text
+				received++
+			case <-time.After(30 * time.Second):
+				res.Violations = append(res.Violations, "a request got neither a response nor a closed connection within 30 s")
+				return false
+			}
+		}
+		return true
+	}
 	for i := 0; i < len(p.Requests); i++ {
+		if p.Requests[i] == 'P' {
+			// a pause longer than --timeout with no request in flight: the workers sit idle
+			if !drain() {
+				return
+			}
+			time.Sleep(1600 * time.Millisecond)
+			res.Outcomes[i] = "pause"
+			continue
+		}
 		mu.Lock()
 		before := busyCount
 		mu.Unlock()
+		issued++
 		go client(i, p.Requests[i])
 		// wait until some worker picked it up (BUSY report), bounded
 		end := time.Now().Add(10 * time.Second)
@@ -205,20 +231,14 @@ func RealMaster(p RealParams) (res RealResult) {
 			time.Sleep(5 * time.Millisecond)
 		}
 	}
-	res.Outcomes = make([]string, len(p.Requests))
-	for range p.Requests {
-		select {
-		case o := <-outc:
-			res.Outcomes[o.idx] = o.text
-		case <-time.After(30 * time.Second):
-			res.Violations = append(res.Violations, "a request got neither a response nor a closed connection within 30 s")
-			return
-		}
+	if !drain() {
+		return
 	}
 	served := map[string]int{}
 	for i, o := range res.Outcomes {
 		kind := p.Requests[i]
 		switch {
+		case kind == 'P':
 		case kind == 'H':
 			if !strings.HasPrefix(o, "closed-without-response") {
 				res.Violations = append(res.Violations, fmt.Sprintf("hanging request %d: expected the connection to be closed when its worker is terminated, got %s", i, o))
